@@ -1,0 +1,17 @@
+//go:build verif
+
+package legacy
+
+// Contracts checked by /verif/govc (comment-only file; build tag verif).
+
+// ---------------------------------------------------------------------------
+// C08 — the legacy cache keeps a copy of the class-selection decision; without
+// the annotation the IngressClass decides (a foreign or missing class is not
+// selected whatever --watch-ingress-without-class says), without both the flag does
+//@ count LegacyValidClass = (*k8scache).IsValidIngressClass
+//@ func (*k8scache).IsValidIngress
+//@   props C08
+//@   ensures class-decides: !old(in("kubernetes.io/ingress.class", ing.Annotations)) && old(ing.Spec.IngressClassName) != nil ==> result == (calls(LegacyValidClass) == 1 && last(LegacyValidClass))
+//@   ensures flag-decides:  !old(in("kubernetes.io/ingress.class", ing.Annotations)) && old(ing.Spec.IngressClassName) == nil ==> result == old(c.cfg.WatchIngressWithoutClass)
+//@   ensures ann-decides:   old(in("kubernetes.io/ingress.class", ing.Annotations)) && old(ing.Spec.IngressClassName) == nil ==> result == old(ing.Annotations["kubernetes.io/ingress.class"] == c.cfg.IngressClass)
+//@ end
